@@ -421,43 +421,49 @@ def skipTo (r : Ring) (off : Nat) : Option (Nat × Nat) :=
   else if off - used1 ≤ cont ∧ cont ≠ 0 then some (off - used1, cont - (off - used1))
   else none
 
-/-- `mpt_queue_peek(qu, max, dst)` with a decoder: the queue afterwards, the return value and the bytes
-    copied to `dst` -/
+/-- the decoder part of `mpt_queue_peek`: the decoder previews the first piece of the data behind the delivered
+    bytes (offsets made relative to that piece); a refused preview copies nothing — with a destination the
+    refusal is reported, without one the call is a length query -/
+def peekDec (dec : DecState → List Seg → Bool → DecOut) (q : DecodeQueue) (mx : Nat) (dst : Bool) :
+    Res (DecodeQueue × Int × List Byte) :=
+  -- work area reduces offset
+  let off := min q.st.pos q.st.curr
+  match skipTo q.ring off with
+  | none => .ok (q, Err.MissingData.code, [])
+  | some (b, used) =>
+    let o := dec { q.st with pos := q.st.pos - off, curr := q.st.curr - off }
+      [(q.base + b, (q.ring.store.drop b).take used)] true
+    let store := Mem.write q.ring.store b o.store
+    let q1 : DecodeQueue := { q with ring := { q.ring with store := store },
+                                     st := { o.st with pos := o.st.pos + off, curr := o.st.curr + off } }
+    match o.ret with
+    | .oob => .oob
+    | .clobber => .oob
+    | .err e => .ok (q1, if dst then e.code else ((o.st.len : Nat) : Int), [])
+    | .val _ =>
+      if !dst then .ok (q1, (o.st.len : Nat), [])
+      else do
+        -- get data start and length
+        let out ← Mem.rd store (b + o.st.pos) (min o.st.len mx)
+        pure (q1, ((min o.st.len mx : Nat) : Int), out)
+
+/-- `mpt_queue_peek(qu, max, dst)`: the queue afterwards, the return value and the bytes copied to `dst` -/
 def queuePeek (q : DecodeQueue) (mx : Nat) (dst : Bool) : Res (DecodeQueue × Int × List Byte) :=
   if q.ring.len = 0 then .ok (q, Err.MissingData.code, [])
   else
     match q.codec with
     | none =>
-      -- final data available
-      let off := q.st.pos + q.st.msg.getD 0
-      if !dst then
-        .ok (q, if off ≤ q.ring.len then ((q.ring.len - off : Nat) : Int) else Err.MissingData.code, [])
-      else if off > q.ring.len then .ok (q, Err.MissingData.code, [])
+      if q.command then peekDec decodeCommand q mx dst
       else
-        let n := min mx (q.ring.len - off)
-        .ok (q, (n : Nat), (q.ring.content.drop off).take n)
-    | some v =>
-      -- work area reduces offset
-      let off := min q.st.pos q.st.curr
-      match skipTo q.ring off with
-      | none => .ok (q, Err.MissingData.code, [])
-      | some (b, used) =>
-        let o := decodeV v { q.st with pos := q.st.pos - off, curr := q.st.curr - off }
-          [(q.base + b, (q.ring.store.drop b).take used)] true
-        match o.ret with
-        | .oob => .oob
-        | .clobber => .oob
-        | ret =>
-          let store := Mem.write q.ring.store b o.store
-          let q1 : DecodeQueue := { q with ring := { q.ring with store := store },
-                                           st := { o.st with pos := o.st.pos + off, curr := o.st.curr + off } }
-          let len := o.st.len
-          let failed := match ret with | .err _ => true | _ => false
-          if failed || !dst then .ok (q1, (len : Nat), [])
-          else do
-            -- get data start and length
-            let out ← Mem.rd store (b + o.st.pos) (min len mx)
-            pure (q1, ((min len mx : Nat) : Int), out)
+        -- final data available
+        let off := q.st.pos + q.st.msg.getD 0
+        if !dst then
+          .ok (q, if off ≤ q.ring.len then ((q.ring.len - off : Nat) : Int) else Err.MissingData.code, [])
+        else if off > q.ring.len then .ok (q, Err.MissingData.code, [])
+        else
+          let n := min mx (q.ring.len - off)
+          .ok (q, (n : Nat), (q.ring.content.drop off).take n)
+    | some v => peekDec (decodeV v) q mx dst
 
 /-- more input arrives: `mpt_qpush(&data, len, bytes)` (what `mpt_queue_load` does with the bytes read) -/
 def queueFeed (q : DecodeQueue) (bytes : List Byte) : Res (DecodeQueue × Int) :=
